@@ -3,16 +3,17 @@
     computed by the harness; concepts, covers, joins/meets, relations and the order predicates / operators on all ordered
     pairs of concepts (diagonal included) are compared with the model. *)
 From Coq Require Import ZArith List Bool.
-From Concepts Require Import Base.Res Spec.Context Run.Common Run.ObsLat Run.ObsC16 Run.ObsC08.
+From Concepts Require Import Base.Res Spec.Context Run.Common Run.ObsLat Run.ObsC16 Run.ObsC08 Run.ObsC04.
 Import ListNotations.
 Open Scope Z_scope.
 
-Definition case := (ObsLat.case_C03 * ObsLat.case_C05 * ObsLat.case_C07 * ObsC16.case * ObsC08.case)%type.
+Definition case := (ObsLat.case_C03 * ObsLat.case_C05 * ObsLat.case_C07 * ObsC16.case * ObsC08.case * ObsC04.case)%type.
 
 Definition check (cs : case) : list nat :=
-  let '(a, b, c, d, e) := cs in
+  let '(a, b, c, d, e, f) := cs in
   (match ObsLat.check_C03 a with [] => [] | _ => [0%nat] end)
   ++ (match ObsLat.check_C05 b with [] => [] | _ => [1%nat] end)
   ++ (match ObsLat.check_C07 c with [] => [] | _ => [2%nat] end)
   ++ (match ObsC16.check d with [] => [] | _ => [3%nat] end)
-  ++ (match ObsC08.check e with [] => [] | _ => [4%nat] end).
+  ++ (match ObsC08.check e with [] => [] | _ => [4%nat] end)
+  ++ (match ObsC04.check f with [] => [] | _ => [5%nat] end).
